@@ -34,7 +34,7 @@ Module Prod.
   Inductive spc := SIdle | SSend | SWait | SClient | SCloseIn | SCloseRet | SCloseErr | SCloseSucc | SDone.
   Inductive dpc := DRecv | DHold | DCloseH | DDone.
   Inductive rhpc := RhLoop | RhDone.
-  Inductive tpc := TNone | TRecv | THold | TCloseH | TDone.
+  Inductive tpc := TNone | TRecv | THold | TSend | TCloseH | TDone.   (* TSend: partitioned, handler made, about to forward *)
   Inductive ppc := PNone | PStart | PRecv | PHold | PExit | PDone.
   Inductive bpc := BNone | BSelect | BHold | BResp | BWaitSpace | BShutFlush | BShutCloseOut | BShutDrain | BShutStop | BDone.
   Inductive brpc := BrNone | BrRecv | BrNet | BrSend | BrClose | BrDone.
@@ -292,22 +292,27 @@ Module Prod.
                | THold, 1 => resolve (set_t s TRecv (tpq s) (tpq_closed s) 0) (FErr k)
                | _, _ => None end
     | ATNewPp =>
+      (* partitionMessage succeeded and there is no handler yet: newPartitionProducer; the message will be forwarded *)
       match tp s, pp s with
-      | THold, PNone => Some (set_p s PStart 0 false 0 0 false)
+      | THold, PNone => Some (set_t (set_p s PStart 0 false 0 0 false) TSend (tpq s) (tpq_closed s) 1)
       | _, _ => None end
     | ATFwd hand =>
-      match tp s, t_hold s, pp s with
-      | THold, 1, PNone => None
-      | THold, 1, _ =>
-        if hand then
-          match pp s, ppq s with
-          | PRecv, 0 => Some (upd_panic (set_p (set_t s TRecv (tpq s) (tpq_closed s) 0) PHold 0 (ppq_closed s) 1 (ppbuf s) (pp_ref s)) (ppq_closed s))
-          | _, _ => None
-          end
-        else if ppq s <? qcap c
-             then Some (upd_panic (set_p (set_t s TRecv (tpq s) (tpq_closed s) 0) (pp s) (S (ppq s)) (ppq_closed s) (p_hold s) (ppbuf s) (pp_ref s)) (ppq_closed s))
-             else None
-      | _, _, _ => None
+      match t_hold s, pp s with
+      | 1, PNone => None
+      | 1, _ =>
+        match tp s with
+        | THold | TSend =>
+          if hand then
+            match pp s, ppq s with
+            | PRecv, 0 => Some (upd_panic (set_p (set_t s TRecv (tpq s) (tpq_closed s) 0) PHold 0 (ppq_closed s) 1 (ppbuf s) (pp_ref s)) (ppq_closed s))
+            | _, _ => None
+            end
+          else if ppq s <? qcap c
+               then Some (upd_panic (set_p (set_t s TRecv (tpq s) (tpq_closed s) 0) (pp s) (S (ppq s)) (ppq_closed s) (p_hold s) (ppbuf s) (pp_ref s)) (ppq_closed s))
+               else None
+        | _ => None
+        end
+      | _, _ => None
       end
     | ATSeeClosed => match tp s, tpq s with
                      | TRecv, 0 => if tpq_closed s then Some (set_t s TCloseH 0 true 0) else None
